@@ -226,6 +226,27 @@ pub fn sweep(ctx: &Ctx, rep: &Report, v: &dyn Visitor, want_registers: bool) -> 
             }
         });
     }
+    // DF16: the 56-bit MV field (ACAS coordination / resolution messages), 8-bit windows at stride 4
+    par_ranges(ctx.threads, 13 * 2, 1, |lo, hi| {
+        for i in lo..hi {
+            let off = 32 + 4 * (i / 2) as usize;
+            let bg = if i % 2 == 0 { 0x00u8 } else { 0xff };
+            for val in 0..256u64 {
+                for first in [0x30u8, 0x00, 0x31, 0xff] {
+                    let mut f = vec![0u8; 14];
+                    set_bits(&mut f, 0, 5, 16);
+                    set_bits(&mut f, 19, 13, ac13_q(35000) as u64);
+                    for b in f[4..11].iter_mut() {
+                        *b = bg;
+                    }
+                    f[4] = first;
+                    set_bits(&mut f, off.min(80), 8, val);
+                    seal(&mut f, addr);
+                    visit_frame(v, &c, "surveillance-mv", &f);
+                }
+            }
+        }
+    });
     rep.part("surveillance headers and codes", c.frames.load(Ordering::Relaxed), serde_json::json!({"accepted": c.accepted.load(Ordering::Relaxed)}));
     // (d) extended squitter: all 256 first ME bytes x windows over the other 48 bits x backgrounds
     let mut bgs: Vec<[u8; 7]> = vec![[0u8; 7], [0xffu8; 7]];
